@@ -15,18 +15,30 @@ META = {
                   'a number, no fraction truncated, canonical base64, equal lengths - and the accepted value denotes v: numerically '
                   'equal or clamped from inside the documented tolerance, element-wise, key-wise, members not offered taken from '
                   'previous and validated), accept_total / validate_total / import_total / call_total (only bad-value errors), '
-                  'validate_idem + validate_canon = revalidate_unchanged (hypothesis GridExact), call_idem (hypothesis GridAll), '
-                  'inSetB_sound / inSetB_complete.  The models are tied to frappy/datatypes.py by a correspondence run on the real '
-                  'classes; the Lean monitors are `decide` of the specification Props themselves.',
+                  'validate_idem + validate_canon = revalidate_unchanged (hypothesis GridExact), revalidate_unchanged_partial and '
+                  'call_idem_of_snapIdem (validating / converting an already validated / converted value returns it unchanged, from the '
+                  'single carrier hypothesis SnapIdem - a finite round(x/scale)*scale snaps to itself - proved for Rat), '
+                  'string_length_in_chars / string_accepted_iff (string limits count code points, not encoded bytes), change_sound / '
+                  'change_total / change_eq_accept / change_ok_partial (what a `change` request stores: import, validate against the '
+                  'value held, validate once more in the write wrapper), command_argument_ok (what a `do` request hands to the command '
+                  'function), inSetB_sound / inSetB_complete / judgeChange_sound.  The '
+                  'models are tied to frappy/datatypes.py by a correspondence run on the real classes and, for the glue '
+                  '(dispatcher._setParameterValue + write wrapper, Command.do), by `change` and `do` requests to a real SecNode; the Lean monitors are '
+                  '`decide` of the specification Props themselves.',
     'level_note': 'Trusted: Lean kernel + axioms propext/Classical.choice/Quot.sound; the 27 laws of LawfulFloatOps for binary64 (all '
-                  'proved for the exact carrier Rat; re-tested on the doubles of every run - a test).  GridExact / GridAll (hypotheses '
-                  'of idempotence) hold over Rat; for binary64 they can fail where scale is below the float spacing (grid indices '
-                  'beyond 2^53) - the generator probes that region.  lazy_number_validation stays False.  Lone-surrogate strings and '
+                  'proved for the exact carrier Rat; re-tested on the doubles of every run - a test).  SnapIdem (the one hypothesis '
+                  'of revalidate_unchanged_partial, call_idem_of_snapIdem, change_eq_accept) is proved over Rat; for binary64 it is '
+                  'neither proved nor among the laws - it is re-tested in every run (pointed at grid indices 2^49..2^200) and by the '
+                  'idem clause on every accepted value; GridExact / GridAll are the older per-tree forms.  validate_idem_statement '
+                  '(every value of the declared set is a fixed point) is false for binary64 for scaled types whose limit has an '
+                  'overflowing grid value (they refuse every value).  lazy_number_validation stays False.  Lone-surrogate strings and '
                   'previous values of a wrong kind are judged for totality only.  Previous values are values __call__ accepts '
                   '(validate-accepted ones and ones pushed outside the limits).',
     'trusted': [
         'binary64 satisfies the 27 laws of LawfulFloatOps (FrappyModel/Base/Num.lean): order laws, monotonicity of x/scale, k*scale, '
         'round(), x + 0.0, tolerance band; proved for the Rat carrier, re-tested on the doubles of each run',
+        'SnapIdem for binary64 (hypothesis of revalidate_unchanged_partial / call_idem_of_snapIdem / change_eq_accept): '
+        'round(y/scale)*scale = y for every finite y = round(x/scale)*scale; proved for Rat, re-tested on every run',
         'GridExact (hypothesis of validate_idem): round((k*scale)/scale) = k and finiteness on the declared grid range',
         'FrappyDrive/FloatInst.lean: Float instance of FloatOps (exact ofInt/round/trunc computed from bit patterns)',
         'Base64.decode? = canonical base64 = what b64decode(validate=True) followed by the re-encoding comparison accepts (compared on every blob case)',
@@ -36,8 +48,11 @@ META = {
         'base64.b64decode',
         'frappy.lib.enum.Enum (dict keyed by names and values; EnumMember.__eq__/__hash__)',
         'frappy.properties.HasProperties.checkProperties (DType.WF is what it enforces)',
+        'Parameter / Module construction, Dispatcher.handle_request, announceUpdate, export_value of the reply (the `change` stream '
+        'observes the value stored and the error class only; the model changeValue covers import + validate + validate)',
     ],
     'assumptions': ['generalConfig.lazy_number_validation is False (default)',
+                    'change requests: a parameter without write_ method, check_ function or limit parameters; do requests: an argument type that is not a struct at the root',
                     'previous is None or a value __call__ returned (it may lie outside the limits)',
                     'dict keys of offered values are strings (struct member names)'],
 }
@@ -295,17 +310,32 @@ class ChangeNode:
 
     def __init__(self, dt):
         from frappy.modules import Module
-        from frappy.params import Parameter
+        from frappy.params import Command, Parameter
         from vlib.node import Node
 
-        class M(Module):
+        from frappy.datatypes import StructOf
+
+        class M0(Module):
             p = Parameter('parameter under test', datatype=dt, readonly=False)
+            got = None
+        if isinstance(dt, StructOf):
+            # a struct argument is bound to the signature of the function (names, and `optional` REWRITTEN from the
+            # defaults): no command for a struct at the root; structs below the root are covered
+            M = M0
+        else:
+            class M(M0):
+                @Command(argument=dt.copy())
+                def c(self, *args, **kwds):
+                    """command under test: records what it is called with"""
+                    self.got = (args, kwds)
         self.node = Node({'m': {'cls': M, 'description': 'C01'}})
         self.module = self.node.modules['m']
         self.conn = self.node.connect()
         # the datatype the parameter really has: Parameter copies it (a scaled copy has its limits rounded to the grid)
         self.dt = self.module.parameters['p'].datatype
         self.tree = dtcodec.dt_to_tree(self.dt)
+        self.argtype = self.module.commands['c'].argument if 'c' in self.module.commands else None
+        self.argtree = dtcodec.dt_to_tree(self.argtype) if self.argtype is not None else None
 
     def hold(self, value):
         """a driver update: the parameter now holds dt(value) (or keeps its value when __call__ refuses)"""
@@ -324,6 +354,38 @@ class ChangeNode:
         if reply[2][0] in ('RangeError', 'WrongType'):
             return 'bad', None
         return 'other', reply[2][1]
+
+
+    def do(self, cand):
+        """('ok', the argument the command function received) | ('bad', None) | ('other', python class) for `do m:_c <cand>`"""
+        from frappy.datatypes import StructOf, TupleOf
+        self.module.got = None
+        reply = self.node.request(self.conn, 'do', 'm:_c', cand)
+        del self.conn.msgs[:]
+        if reply[0] == 'done':
+            if self.module.got is None:
+                return 'other', 'function-not-called'
+            args, kwds = self.module.got
+            if isinstance(self.argtype, TupleOf):       # called with the elements as positional arguments
+                return 'ok', tuple(args)
+            if isinstance(self.argtype, StructOf):      # called with the members as keyword arguments
+                return 'ok', dict(kwds)
+            return ('ok', args[0]) if len(args) == 1 and not kwds else ('other', 'wrong-call-shape')
+        if reply[2][0] in ('RangeError', 'WrongType'):
+            return 'bad', None
+        return 'other', reply[2][1]
+
+
+def eval_do(case, cn=None):
+    """one `do` request for a protocol case with mode 'do' (the candidate as the argument of a command)"""
+    if cn is None:
+        cn = ChangeNode(dtcodec.tree_to_dt(case['tree']))
+    cand = json.loads(json.dumps(dtcodec.json_to_py(case['cand'])))
+    hint = _outcome(lambda: cn.argtype.import_value(cand))
+    out = _enc(cn.do(cand))
+    req = {'p': 'C01', 'k': 'change', 'dt': cn.argtree, 'cand': case['cand'], 'held': None,
+           'hint': dtcodec.py_to_json(hint[1]) if hint[0] == 'ok' and dtcodec.encodable(hint[1]) else None, 'out': out}
+    return req, out
 
 
 def eval_change(case, cn=None):
@@ -345,8 +407,9 @@ def eval_change(case, cn=None):
 
 
 def node_stream(ctx, res, cases, ntrees):
-    """the wire cases of `ntrees` trees sent as `change` requests to a real node: the value stored / the error class
-    against the model `changeValue` and the Lean monitor `judgeChange`"""
+    """the wire cases of `ntrees` trees sent to a real node as `change` requests (the value stored / the error class
+    against the model `changeValue`) and as `do` requests (the argument the command function received against
+    `acceptWire dt j none`), both judged by the Lean monitor `judgeChange`"""
     by_tree = {}
     for c, stream in cases:
         if c['mode'] == 'wire' and not c.get('via_get_datatype'):
@@ -369,13 +432,17 @@ def node_stream(ctx, res, cases, ntrees):
             nc = {'tree': c['tree'], 'mode': 'node', 'cand': c['cand'], 'prev': req['held']}
             reqs.append(req)
             meta.append((nc, out))
+            if c['cand'] is not None and cn.argtype is not None:    # `do` without data is "no argument", not a null argument
+                req, out = eval_do(c, cn)
+                reqs.append(req)
+                meta.append(({'tree': c['tree'], 'mode': 'do', 'cand': c['cand'], 'prev': None}, out))
     for (nc, out), ans in zip(meta, ctx.driver.batch(reqs)):
         if 'driver_error' in ans:
             raise RuntimeError(f'driver error {ans} on {json.dumps(nc)[:400]}')
         res.evaluations += 1
         res.traces += 1
-        res.count('stream=node(change request)')
-        res.count('node.change=' + out_class(out))
+        res.count('stream=node(change request)' if nc['mode'] == 'node' else 'stream=node(do request)')
+        res.count(('node.change=' if nc['mode'] == 'node' else 'node.do=') + out_class(out))
         if out_class(out) == 'ok':
             res.nontriv(nc)
         if not ans['wf']:
@@ -385,8 +452,10 @@ def node_stream(ctx, res, cases, ntrees):
         for clause in ans['judge']:
             res.violations.append({'sig': 'C01:' + clause + ':' + nc['tree']['t'] +
                                           (':' + out['other'] if clause.startswith('total') else ''),
-                                   'what': f'{clause}: change request on a parameter of type {dtcodec.tree_to_dt(nc["tree"])!r} holding '
-                                           f'{dtcodec.json_to_py(nc["prev"])!r}, data {dtcodec.json_to_py(nc["cand"])!r}: '
+                                   'what': f'{clause}: ' + (f'change request on a parameter of type {dtcodec.tree_to_dt(nc["tree"])!r} holding '
+                                                            f'{dtcodec.json_to_py(nc["prev"])!r}' if nc['mode'] == 'node' else
+                                                            f'do request on a command with argument type {dtcodec.tree_to_dt(nc["tree"])!r}') +
+                                           f', data {dtcodec.json_to_py(nc["cand"])!r}: '
                                            f'{json.dumps(out) if not (isinstance(out, dict) and "ok" in out) else repr(dtcodec.json_to_py(out["ok"]))}',
                                    'case': nc, 'detail': {'clause': clause}})
 
@@ -497,8 +566,11 @@ def run(ctx):
                 'get_datatype): import_value + validate(previous) for JSON candidates, validate(previous) for Python candidates, '
                 '__call__ for both, re-validation of every accepted value.  Streams: valid (from the value set), subst (every kind at '
                 'every position), boundary (limits, tolerance band, NaN/inf, huge ints), shape (lengths, arity, members, None). '
+                'length (code-point counts at the limits in ASCII and in characters whose length differs in bytes / UTF-16 units / '
+                'after normalisation), relative (built from the value held), node (the wire cases of a share of the trees as '
+                '`change` requests to a real SecNode).  '
                 'Non-trivial = accepted by validate, or a container candidate of the right container kind that is rejected (the '
-                'rejection comes from a length or from below the root)')
+                'rejection comes from a length or from below the root); for a change request: accepted')
     rng = ctx.rng
     big = ctx.tier == 'thorough' or ctx.escalated
     maxdepth = 5 if big else 3
@@ -710,12 +782,12 @@ def replay(ctx, rp):
         print('candidate:', repr(cand))
         print('impl     :', outs)
         return 1 if any(k == 'other' for k, _ in outs) else 0
-    if case['mode'] == 'node':
-        req, out = eval_change(case)
+    if case['mode'] in ('node', 'do'):
+        req, out = eval_change(case) if case['mode'] == 'node' else eval_do(case)
         ans = ctx.driver.batch([req])[0]
         print('datatype :', repr(dtcodec.tree_to_dt(case['tree'])))
-        print('held     :', repr(dtcodec.json_to_py(req['held'])))
-        print('change   :', repr(dtcodec.json_to_py(case['cand'])))
+        print('held     :', repr(dtcodec.json_to_py(req['held'])) if req['held'] is not None else '- (do request)')
+        print('data     :', repr(dtcodec.json_to_py(case['cand'])))
         print('impl     :', json.dumps(out))
         print('model    :', json.dumps(ans.get('model')))
         print('judge    :', ans.get('judge'), '' if ans.get('wf') else '(tree not WF)')
